@@ -21,8 +21,14 @@ def main():
     try:
         return mod.run(tier, seed)
     except core.EngineError as e:
-        print('ENGINE-ERROR: %s' % e)
-        return 2
+        # the executor cannot encode the current tree: run the property's replay battery as a safety net
+        try:
+            from props import fallback
+            return fallback.run(pid, tier, seed, str(e)[:600])
+        except Exception:
+            traceback.print_exc()
+            print('ENGINE-ERROR: %s' % e)
+            return 2
     except Exception:
         traceback.print_exc()
         return 2
